@@ -150,14 +150,22 @@ class BiasedYXErrorModel(SimpleErrorModel):
         if bias == 0:  # zero-bias => pure X-noise
             return probability
         h, p = bias, probability
-        return 1 / 2 * (1 + h + p - h * p - math.sqrt(-4 * p + (1 + h + p - h * p) ** 2))
+        # cancellation-free form of 1/2 * (a - sqrt(a**2 - 4p)) where a = 1 + h + p - hp
+        return 2 * p / ((1 + p) + h * (1 - p) + cls._root(h, p))
 
     @classmethod
     def _rate_y(cls, bias, probability):
         if bias == 0:  # zero-bias => pure X-noise
             return 0
         h, p = bias, probability
-        return 1 / (2 * h) * (1 + h - p + h * p - math.sqrt(-4 * p + (1 + h + p - h * p) ** 2))
+        # cancellation-free form of 1/(2h) * (b - sqrt(b**2 - 4hhp)) where b = 1 + h - p + hp
+        return 2 * h * p / ((1 - p) + h * (1 + p) + cls._root(h, p))
+
+    @classmethod
+    def _root(cls, bias, probability):
+        # sqrt((1 + h + p - hp)**2 - 4p) with the discriminant factorised so that it cannot round below zero
+        h, p = bias, probability
+        return math.sqrt((1 - p) * ((1 - p) * (1 + h ** 2) + 2 * h * (1 + p)))
 
     @functools.lru_cache()
     def probability_distribution(self, probability):
